@@ -89,7 +89,7 @@ CHECKS = {
          "pool (1 / 2-1, 0 / -0, NaN, equal strings and tuples built separately, tuples holding 0 / -0, nil, true, a class, a range, unhashable "
          "vectors and tuples - fresh and held in a variable) run under an 8-operation script; every sequence of 4 operations on one key; and seeded "
          "longer sequences with literals, insert, remove, get, has_key, len, clear and keys / values / items compared as multisets. Executed by the "
-         "machine under TLC, replayed on both builds.",
+         "machine under TLC, replayed on both builds. A value-replacement product inserts a second value that is == to the stored one but distinguishable from it (0 / -0, NaN, equal containers that are different objects and are mutated afterwards).",
     note=MACHINE_NOTE + " Enumeration order of a HashMap is unspecified and compared as a multiset.",
     technique="TLA+ reference machine (TLC) + scenario products replayed on the implementation", design="4 C12"),
  "C14": dict(
@@ -103,7 +103,7 @@ CHECKS = {
          "module loader serving the generated sources; 120 products of how control comes back into a module (exception landing on a handler, fiber "
          "yield / finish, return, import completing or failing) x what the continuing code does with its globals; 45 products of a built-in name "
          "(print, type, Vec, StopIter, Error, Fiber, String, Object, TypeError) rebound by the importer, by the imported module's body or by one of "
-         "its functions, before or after another module is loaded, while every other module keeps using the built-in.",
+         "its functions, before or after another module is loaded, while every other module keeps using the built-in. Module paths that carry the file extension (loaded once, part of cycle detection), imports of an already loaded module in the deepest call frames, and aliased imports whose path has no file name (a run-time ImportError, not a compile error) have a product of their own.",
     note=MACHINE_NOTE + " Scenario products are built outside TLC; not exhaustive.",
     technique="TLA+ reference machine (TLC) + scenario products replayed on the implementation", design="4 C14"),
  "C15": dict(
@@ -141,7 +141,7 @@ CHECKS = {
          "their core.yl line numbers) executed by the machine. Seeded products: 13 iterables x 0-3 adapters x 11 consumers (break / continue / "
          "return, nested and interleaved loops over one iterator, manual next; vectors of 1-5 elements pushed to / popped from during iteration so that "
          "the length moves onto, below and past the cursor; user iterables whose iter() rewinds, or that have next() only, under map / filter / "
-         "collect / reduce), replayed on both builds.",
+         "collect / reduce), replayed on both builds. Ranges are translation invariant: the machine runs a family of range programs with K = 1000 and the implementation runs the same programs with every bound moved up by 2^31, 2^32, 2^32 + 2^31 and 2^52 (only differences to K are printed); sequences of 70-200 elements (long runs rejected by a filter, long chains, reduce, continue on most passes) are replayed too.",
     note=MACHINE_NOTE + " String iteration is decided by C13.",
     technique="TLA+ reference machine (TLC) + scenario products replayed on the implementation", design="4 C18"),
  "C07": dict(
@@ -152,7 +152,7 @@ CHECKS = {
          "define / override / super-call / super-value / omit per level, static methods, constructor chains, fields shadowing methods (also "
          "a field named like a method that an ancestor reaches through super), static methods and constructors read as values through the class, bound "
          "methods in variables and fields, superclass rebinding, local classes and all arities are executed by the machine under TLC and "
-         "replayed on checked and optimised builds. A class may override a method it inherits from Object itself (derives), at any level and with super.derives; subclasses inherit the override.",
+         "replayed on checked and optimised builds. A class may override a method it inherits from Object itself (derives), at any level and with super.derives; subclasses inherit the override. Constructors left by a bare return from inside try / finally, the for statement's protocol members (iter, next) as instance fields, and an instance method that reuses a static method's name in the same class body are part of the product.",
     note=MACHINE_NOTE + " Scenario products are built outside TLC; not exhaustive.",
     technique="TLA+ reference machine (TLC) + scenario products replayed on the implementation", design="4 C07"),
  "C05": dict(
